@@ -92,7 +92,9 @@ class C24(Spec):
     model_deps = ['coq/C01/Model.vo', 'coq/C24/Model.vo']
     rule = ('the model specs of C01 (irrelevant side branches, unrelated sources, several design variables and responses, '
             'multi-output IndepVarComps and implicit components, aliases, feedback connections), one sampled solver '
-            'configuration each; totals (fwd, rev) and converged outputs with relevance enabled vs OPENMDAO_NO_RELEVANCE=1 in '
+            'configuration each (a third of the feed-forward ones with approx_totals on the first-level groups); a history of 1-3 '
+            'compute_totals calls with random of / wrt subsets on the same Problem followed by the full totals (fwd, rev), and '
+            'converged outputs, with relevance enabled vs OPENMDAO_NO_RELEVANCE=1 in '
             'a fresh subprocess; per design variable / response the real reachability sets vs the model; a case is a '
             'distinct spec')
     assumptions = ['optimizer runs (run_driver) are not part of the generated stream: affine objectives have no interior '
@@ -111,7 +113,16 @@ class C24(Spec):
                    'nl': 'nlbgs', 'mf': rng.random() < 0.7}
             if cfg['lin'].startswith(('direct', 'krylov')):
                 cfg['jac'] = rng.choice([None, None, 'csc', 'dense'])
-            cases.append({'spec': spec, 'cfg': cfg, 'kind': spec_kind(spec) + ':' + cfg['lin']})
+            if not cpl and cfg['jac'] is None and rng.random() < 0.35:
+                cfg['approx'] = True          # first-level groups are semi-total finite-difference groups
+                cfg['mf'] = False             # (approx groups with matrix-free components: props/C01/repro_approx_observations.py)
+            nd, nr = len(spec['desvars']), len(spec['responses'])
+            history = []
+            for _ in range(rng.randrange(1, 4)):
+                history.append([sorted(rng.sample(range(nr), rng.randrange(1, nr + 1))),
+                                sorted(rng.sample(range(nd), rng.randrange(1, nd + 1)))])
+            cases.append({'spec': spec, 'cfg': cfg, 'history': history,
+                          'kind': spec_kind(spec) + ':' + cfg['lin'] + (':approx_totals' if cfg.get('approx') else '')})
         return cases
 
     def search_gen(self, tier, rng):
@@ -142,6 +153,7 @@ class C24(Spec):
 
 def _after(v, cases, results):
     v.cov['vacuous_nonconverged_runs'] = sum(r.get('vacuous', 0) for r in results)
+    v.cov['rejected_identically_on_and_off'] = sorted({r.get('both_raise') for r in results if r.get('both_raise')})
     v.cov['dag_cases'] = sum(1 for c in cases if not c['spec']['coupled'])
     v.cov['irrelevant_systems_total'] = sum(
         sum(1 for col in zip(*[[x and y for x, y in zip(d, a)] for d in r['res'][0] for a in r['res'][1]]) if not any(col))
